@@ -13,6 +13,7 @@ import (
 	"strings"
 	"time"
 
+	"github.com/protolambda/zrnt/eth2/beacon"
 	"github.com/protolambda/zrnt/eth2/beacon/altair"
 	"github.com/protolambda/zrnt/eth2/beacon/bellatrix"
 	"github.com/protolambda/zrnt/eth2/beacon/capella"
@@ -1013,13 +1014,14 @@ func runC05Staleness(b *fw.B) {
 			sc.Epochs = min(sc.Epochs, 8)
 		}
 		b.Case("staleness-chain", sc.String())
-		hooks := chainHooks{afterStep: func(c *sim.Chain, where string, isBlock bool, built *sim.Built) bool {
-			data, err := sim.ZrntStateBytes(c.Z)
+		var c05spec *common.Spec
+		check := func(z common.BeaconState, where string) bool {
+			data, err := sim.ZrntStateBytes(z)
 			if err != nil {
 				return true
 			}
-			live := sim.ZrntStateRoot(c.Z)
-			re, err := sim.LoadZrntState(c.ZSpec, sim.ZrntFork(c.Z), data)
+			live := sim.ZrntStateRoot(z)
+			re, err := sim.LoadZrntState(c05spec, sim.ZrntFork(z), data)
 			if err != nil {
 				b.Violate("staleness/reload", fmt.Sprintf("%s: zrnt cannot reload its own state bytes: %v", where, err), nil)
 				return false
@@ -1030,6 +1032,26 @@ func runC05Staleness(b *fw.B) {
 				return false
 			}
 			return true
+		}
+		hooks := chainHooks{afterStep: func(c *sim.Chain, where string, isBlock bool, built *sim.Built) bool {
+			c05spec = c.ZSpec
+			return check(c.Z, where)
+		}, beforeBlock: func(c *sim.Chain, built *sim.Built) bool {
+			// the block's own transition checks the state root and would stop the chain first:
+			// look at the state advanced to the block's slot on a copy
+			c05spec = c.ZSpec
+			cp, err := c.Z.BeaconState.CopyState()
+			if err != nil {
+				return false
+			}
+			z := &beacon.StandardUpgradeableBeaconState{BeaconState: cp}
+			if cur, _ := z.Slot(); uint64(cur) < built.Signed.Message.Slot {
+				if err := common.ProcessSlots(context.Background(), c.ZSpec, c.Epc.Clone(), z, common.Slot(built.Signed.Message.Slot)); err == nil {
+					b.Inc("staleness_checks_before_blocks")
+					check(z, fmt.Sprintf("state advanced to slot %d before its block", built.Signed.Message.Slot))
+				}
+			}
+			return false
 		}}
 		runChain(b, sc, hooks, func(m *sim.Mismatch, trace []string) {
 			if m.Kind == "root-mismatch" {
